@@ -44,48 +44,68 @@ structure RS where
   buf : List Nat := []               -- tokens in the buffers
   aborted : Bool := false
   interrupted : Bool := false        -- KeyboardInterrupt is propagating
-  evs : List REv := []               -- most recent first
+  evs : List REv := []               -- oldest first
 
-def RS.emit (s : RS) (e : REv) : RS := { s with evs := e :: s.evs }
+def RS.emit (s : RS) (e : REv) : RS := { s with evs := s.evs ++ [e] }
 
 /-- `_setUpStdStreams` -/
-def setUpStreams (c : Cfg) (s : RS) : RS := if c.buffer then { s with captured := true } else s
+def setUpStreams (c : Cfg) (s : RS) : RS := { s with captured := c.buffer || s.captured }
 
 /-- `_restoreStdStreams`: restores only while the buffers are installed; returns the drained tokens -/
 def restoreStreams (c : Cfg) (s : RS) : RS × List Nat :=
-  if c.buffer && s.captured then ({ s with captured := false, buf := [] }, s.buf) else (s, [])
+  ({ s with captured := s.captured && !c.buffer, buf := if c.buffer && s.captured then [] else s.buf },
+   if c.buffer && s.captured then s.buf else [])
 
-def stopIf (c : Cfg) (s : RS) : RS := if c.stopOnError then { s with shouldStop := true } else s
+def stopIf (c : Cfg) (s : RS) : RS := { s with shouldStop := s.shouldStop || c.stopOnError }
 
+/-- `testSetUp()`: the hook of every layer of `self.layers` that has one, bases first -/
 def callHooksUp (c : Cfg) (s : RS) : RS :=
-  c.hooksUp.foldl (fun s l => s.emit (.hookSetUp l (!s.captured))) s
+  { s with evs := s.evs ++ c.hooksUp.map (fun l => REv.hookSetUp l (!s.captured)) }
 
+/-- `testTearDown()`: the hooks in `self.layers[-1::-1]` order -/
 def callHooksDown (c : Cfg) (s : RS) : RS :=
-  c.hooksDown.foldl (fun s l => s.emit (.hookTearDown l (!s.captured))) s
+  { s with evs := s.evs ++ c.hooksDown.map (fun l => REv.hookTearDown l (!s.captured)) }
 
 /-- user code writes tokens: captured or straight through -/
 def writeToks (t : Nat) (s : RS) (ws : List (Bool × Nat)) : RS :=
-  if s.captured then { s with buf := s.buf ++ ws.map (·.2) }
-  else ws.foldl (fun s w => s.emit (.leak t w.2)) s
+  { s with
+    buf := if s.captured then s.buf ++ ws.map (·.2) else s.buf
+    evs := if s.captured then s.evs else s.evs ++ ws.map (fun w => REv.leak t w.2) }
+
+/-- `unittest.TestResult.addFailure/addError/addSubTest/addUnexpectedSuccess`: the lists -/
+def record (t : Nat) (b : Bad) (s : RS) : RS :=
+  { s with
+    failures := if b = .failure ∨ b = .subFailure then s.failures ++ [t] else s.failures
+    errors := if b = .error ∨ b = .subError then s.errors ++ [t] else s.errors
+    unexpected := if b = .unexpectedSuccess then s.unexpected ++ [t] else s.unexpected }
 
 def bad (c : Cfg) (t : Nat) (b : Bad) (s : RS) : RS :=
-  let (s, toks) := restoreStreams c s
-  let s := s.emit (.report t b toks)
-  let s := match b with
-    | .failure | .subFailure => { s with failures := s.failures ++ [t] }
-    | .error | .subError => { s with errors := s.errors ++ [t] }
-    | .unexpectedSuccess => { s with unexpected := s.unexpected ++ [t] }
-  stopIf c s
+  let r := restoreStreams c s
+  stopIf c (record t b (r.1.emit (.report t b r.2)))
+
+/-- `addSkip` when `startTest` was not called: set up the expected state, incl. the per-test
+layer hooks -/
+def skipFallback (c : Cfg) (t : TestDef) (s : RS) : RS :=
+  let s := callHooksUp c { s with hasTestState := true }
+  { s with testsRun := s.testsRun + t.count, hasStartTime := true }
+
+def noteSkip (t : Nat) (s : RS) : RS := ({ s with skipped := s.skipped ++ [t] }).emit (.skipped t)
+
+/-- `startTest` -/
+def startTest (c : Cfg) (t : TestDef) (s : RS) : RS :=
+  let s := callHooksUp c { s with hasTestState := true }
+  setUpStreams c { s with testsRun := s.testsRun + t.count, hasStartTime := true }
+
+/-- `stopTest` -/
+def stopTest (c : Cfg) (s : RS) : RS :=
+  let s := callHooksDown c (restoreStreams c s).1
+  { s with hasTestState := false, aborted := s.aborted || !s.hasTestState }
 
 /-- one call on the result object (or one moment of user code) for test `t` -/
 def step (c : Cfg) (t : TestDef) (s : RS) (op : Op) : RS :=
   if s.aborted then s else
   match op with
-  | .startTest =>
-    let s := { s with hasTestState := true }
-    let s := callHooksUp c s
-    let s := { s with testsRun := s.testsRun + t.count, hasStartTime := true }
-    setUpStreams c s
+  | .startTest => startTest c t s
   | .code ph ws =>
     let s := s.emit (.code t.id ph)
     writeToks t.id s ws
@@ -93,17 +113,9 @@ def step (c : Cfg) (t : TestDef) (s : RS) (op : Op) : RS :=
     let (s, _) := restoreStreams c s
     if s.hasStartTime then s.emit (.passed t.id) else { s with aborted := true }
   | .addSkip | .addSubSkip =>
-    let s :=
-      if !s.hasTestState then
-        -- `startTest` was not called: set up the expected state (incl. the per-test layer hooks)
-        let s := { s with hasTestState := true }
-        let s := callHooksUp c s
-        { s with testsRun := s.testsRun + t.count, hasStartTime := true }
-      else (restoreStreams c s).1
-    let s := { s with skipped := s.skipped ++ [t.id] }
-    let s := s.emit (.skipped t.id)
-    -- the rest of a skipped test stays captured
-    setUpStreams c s
+    -- when `startTest` was called the skip is reported on the real streams and the capture buffers
+    -- stay as they are
+    noteSkip t.id (if !s.hasTestState then skipFallback c t s else s)
   | .addSubTest none => s
   | .addSubTest (some e) =>
     if !s.hasStartTime then { s with aborted := true }
@@ -114,10 +126,7 @@ def step (c : Cfg) (t : TestDef) (s : RS) (op : Op) : RS :=
   | .addExpectedFailure =>
     let (s, _) := restoreStreams c s
     if s.hasStartTime then s.emit (.passed t.id) else { s with aborted := true }
-  | .stopTest =>
-    let (s, _) := restoreStreams c s
-    let s := callHooksDown c s
-    if s.hasTestState then { s with hasTestState := false } else { s with aborted := true }
+  | .stopTest => stopTest c s
   | .raiseInterrupt => { s with interrupted := true }
 
 /-- `test(result)` -/
